@@ -510,6 +510,19 @@ def corpus_to_file(files, path, optimize=0, max_units=1500, sources=None):
     return st
 
 
+def bigints_to_file(lengths, path):
+    """integers by NUMBER OF DECIMAL DIGITS (both signs) as constants: around 2**53, around the interpreters'
+    int <-> str digit limit (4300) and at regular steps far beyond it; the C07 clauses apply to each"""
+    evs = []
+    for n in lengths:
+        for sign in (1, -1):
+            v = sign * (10 ** (n - 1) + 7 * (n % 10) + 1)
+            for pos in ("operand", "nested"):
+                evs.append(_event("big:%s:%d:%s:%s" % (VER, n, "p" if sign > 0 else "n", pos), carrier(v, pos)))
+    _write(evs, path)
+    return len(evs)
+
+
 # --------------------------------------------------------------------------- C15: producers and consumers
 
 
